@@ -274,7 +274,8 @@ Definition sim_step (v : version) (s : sim) (t : token) : sim :=
       | k :: _ => with_memo s (memo_put (memo_len s) k (memo s))
       | [] => s
       end
-  | PROTO | READONLY_BUFFER | STOP | FRAME => s
+  | STOP => with_stk s (tl st)
+  | PROTO | READONLY_BUFFER | FRAME => s
   end.
 
 (* ---- cleanup_for_stop: the opcodes it emits, as a function of the simulated stack ---- *)
